@@ -160,6 +160,9 @@ def mentions (k : Nat) : Op → Bool
   | .ctorLit j _ => j == k
   | .ctorType j _ => j == k
   | .ctorKV j _ q => j == k || q.root == k
+  | .ctorArr j _ => j == k
+  | .ctorDic j _ => j == k
+  | .ctorVars j qs => j == k || qs.any (fun q => q.root == k)
 
 /-- The full statement: in every state reached by a guarded history, every executed `p = q` (any paths; `q` may
 lie inside `p`; the source reference `sl` is evaluated first, then the target path, as the C++ does) leaves the Var at
@@ -315,6 +318,82 @@ theorem autocreate_invalidates_source_counterexample :
       (run true (initState 1) [.appLit ⟨0, []⟩ (.str [97, 32, 108, 111, 110, 103, 32, 115, 116, 114]), .appLit ⟨0, []⟩ (.int 2)])
       (.slot 0) [.idx 5]).1 (.item 0 0) = .error .uaf := by
   constructor <;> rfl
+
+/-! ## constructors from containers: `Var(Array<T>)`, `Var(std::initializer_list<T>)`, `Var(Dic<T>)`, `Var::array({..})` -/
+
+/-- **ctor_array_spec** — `Var(const Array<T>&)` / `Var(std::initializer_list<T>)` (T = int, double, String, …): after the executed
+construction the root holds an ARRAY with exactly `n` elements whose content is the list of the given values, in
+order; whatever the root held before has been released; the invariant holds -/
+theorem ctor_array_spec (σ σ' : State) (k : Nat) (lits : List Lit) (inv : Inv σ []) (h : rootOp σ (.ctorArr k lits) = .ok σ') :
+    ∃ id b, σ'.slots[k]? = some (.arr id) ∧ getB σ'.heap id = .ok b ∧ b.items.length = lits.length ∧
+      (∀ f, content (f + 2) σ'.heap (.arr id) = some (.arr (lits.map fun l => scalarTree l.toV))) ∧ Inv σ' [] := by
+  simp only [rootOp, opCtorArr, allocB] at h
+  have hsc : ∀ kv ∈ lits.map (fun l => (([] : Bytes), l.toV)), handleOf kv.2 = none := by
+    intro kv hkv; obtain ⟨l, _, rfl⟩ := List.mem_map.mp hkv; exact Lit.toV_scalar l
+  obtain ⟨hget, _, ⟨b', hb', e1, _⟩, inv', _⟩ := ctor_block_spec σ σ' k
+    { isObj := false, items := lits.map (fun l => (([] : Bytes), l.toV)), cap := litCap lits.length, rc := 1 }
+    (by
+      have := Inv.scalars inv ((lits.map (fun l => (([] : Bytes), l.toV))).map (·.2)) (by
+        intro v hv; obtain ⟨kv, hkv, rfl⟩ := List.mem_map.mp hv; exact hsc kv hkv)
+      simpa [bvals] using this) rfl (by intro h0; cases h0) h
+  refine ⟨σ.heap.length, b', hget, hb', by rw [e1]; simp, ?_, inv'⟩
+  intro f
+  rw [content_arr_of hb', e1, mapO_scalar_arr f σ'.heap _ hsc]
+  simp [List.map_map, Function.comp_def]
+
+/-- **ctor_dic_spec** — `Var(const Dic<T>&)`: after the executed construction the root holds an OBJECT whose properties
+are the entries of the dictionary (keys ascending, each once, a later entry for the same key winning), each denoting the
+given value; the invariant holds -/
+theorem ctor_dic_spec (σ σ' : State) (k : Nat) (pairs : List (Bytes × Lit)) (inv : Inv σ []) (h : rootOp σ (.ctorDic k pairs) = .ok σ') :
+    ∃ id b items, σ'.slots[k]? = some (.obj id) ∧ getB σ'.heap id = .ok b ∧ b.items = items ∧
+      dicOfPairs [] (pairs.map fun kl => (kl.1, kl.2.toV)) = .ok items ∧ SortedItems items ∧
+      (∀ f, content (f + 2) σ'.heap (.obj id) = some (.obj (items.map fun kv => (kv.1, scalarTree kv.2)))) ∧ Inv σ' [] := by
+  simp only [rootOp, opCtorDic] at h
+  obtain ⟨items, h1, hs, hv⟩ := dicOfPairs_spec (pairs.map fun kl => (kl.1, kl.2.toV)) [] (by simp [SortedItems, AslProofs.Map.Sorted])
+  rw [h1] at h; simp only [allocB] at h
+  have hsc : ∀ kv ∈ items, handleOf kv.2 = none := by
+    intro kv hkv
+    rcases hv kv.2 (List.mem_map_of_mem hkv) with h0 | h0
+    · simp at h0
+    · simp only [List.map_map, List.mem_map] at h0; obtain ⟨kl, _, e⟩ := h0; rw [← e]; exact Lit.toV_scalar _
+  obtain ⟨hget, _, ⟨b', hb', e1, _⟩, inv', _⟩ := ctor_block_spec σ σ' k
+    { isObj := true, items := items, cap := litCap items.length, rc := 1 }
+    (by
+      have := Inv.scalars inv (items.map (·.2)) (by intro v hv'; obtain ⟨kv, hkv, rfl⟩ := List.mem_map.mp hv'; exact hsc kv hkv)
+      simpa [bvals] using this)
+    rfl (fun _ => hs) h
+  refine ⟨σ.heap.length, b', items, hget, hb', e1, h1, hs, ?_, inv'⟩
+  intro f
+  rw [content_obj_of hb', e1, mapO_scalar_obj f σ'.heap _ hsc]
+  rfl
+
+/-- **ctor_vars_spec** — `Var::array({a, b, ..})` / `Var(const Array<Var>&)`: after the executed construction the root holds a
+new ARRAY whose elements are copies of the given Vars (containers shared, counted), denoting their trees in order; the
+invariant holds -/
+theorem ctor_vars_spec (σ σ' : State) (k : Nat) (qs : List Path) (inv : Inv σ []) (h : rootOp σ (.ctorVars k qs) = .ok σ') :
+    ∃ id b vals, mapE qs (cget σ) = .ok vals ∧ σ'.slots[k]? = some (.arr id) ∧ getB σ'.heap id = .ok b ∧
+      b.items = vals.map (fun v => (([] : Bytes), v)) ∧
+      (∀ f trs, mapO vals (content f σ.heap) = some trs → content (f + 1) σ'.heap (.arr id) = some (.arr trs)) ∧ Inv σ' [] := by
+  simp only [rootOp, opCtorVars] at h
+  rcases mapE_held inv qs with ⟨e, h1, _⟩ | ⟨vals, h1, hheld⟩
+  · rw [h1] at h; cases h
+  · rw [h1] at h
+    obtain ⟨h', h2, inv2, same⟩ := Inv.copyAll vals σ inv (fun v hv => Held.live inv (hheld v hv))
+    simp only [h2, allocB] at h
+    have hbv : bvals { isObj := false, items := vals.map (fun v => (([] : Bytes), v)), cap := max vals.length 3, rc := 1 } = vals := by
+      simp [bvals, List.map_map, Function.comp_def]
+    obtain ⟨hget, _, ⟨b', hb', e1, _⟩, inv', sub⟩ := ctor_block_spec { σ with heap := h' } σ' k
+      { isObj := false, items := vals.map (fun v => (([] : Bytes), v)), cap := max vals.length 3, rc := 1 }
+      (by rw [hbv]; simpa using inv2) rfl (by intro h0; cases h0) h
+    refine ⟨h'.length, b', vals, h1, hget, hb', e1, ?_, inv'⟩
+    intro f trs hm
+    rw [content_arr_of hb', e1, mapO_map_snd]
+    rw [mapO_congr_some hm]
+    · rfl
+    · intro v hv t ht
+      have hin : v ∈ hvals σ'.heap := mem_hvals_of_getB hb' (by rw [bvals, e1]; simp [List.map_map, Function.comp_def, hv])
+      exact content_sub sub inv'.wf f v t (Or.inr hin)
+        (content_mono (getB_append_mono _) f v t (content_same same f v t ht))
 
 /-! ## clone_deep: clone() yields a deep copy that no later mutation of the original can change -/
 
